@@ -24,6 +24,54 @@ CTYPES = [('signed char', 1, True), ('short', 2, True), ('int', 4, True), ('long
           ('unsigned long', 8, False), ('unsigned long long', 8, False)]
 CDEF_VALUES = [42, -5, 0]
 
+REPLAY = r'''
+# Replay for C12 on the real build: a module whose cdef states one value and whose C source has another.
+import sys, os, json, tempfile, shutil, importlib
+import cffi
+case = json.loads(%r)
+tmp = tempfile.mkdtemp(prefix='verif-c12-')
+bad = []
+try:
+    ffi = cffi.FFI()
+    if case['checked']:
+        ffi.cdef('#define K %%d' %% case['cdef'])
+    else:
+        ffi.cdef('static const %%s K;' %% case['ctype'])
+    ffi.set_source('_verif_c12_replay', 'static const %%s K_value = (%%s)%%dULL;\n#define K K_value' %% (case['ctype'], case['ctype'], case['compiler'] & (2**64 - 1)))
+    ffi.compile(tmpdir=tmp)
+    sys.path.insert(0, tmp)
+    m = importlib.import_module('_verif_c12_replay')
+    real = case['compiler']
+    agree = (not case['checked']) or real == case['cdef']
+    try:
+        v = m.lib.K
+        if not agree: bad.append('lib.K == %%r although the cdef says %%r and the compiler %%r' %% (v, case['cdef'], real))
+        elif v != real: bad.append('lib.K == %%r, the compiler says %%r' %% (v, real))
+    except m.ffi.error as e:
+        if agree: bad.append('lib.K raises although cdef and compiler agree: %%s' %% e)
+    try:
+        t = m.ffi.typeof('int[K]')
+        if not agree or real < 0: bad.append('typeof("int[K]") accepted (length %%r); cdef %%r, compiler %%r' %% (t.length, case.get('cdef'), real))
+        elif t.length != real: bad.append('typeof("int[K]").length == %%r, compiler says %%r' %% (t.length, real))
+    except m.ffi.error as e:
+        if agree and 0 <= real < 2**63: bad.append('typeof("int[K]") raises although the value is usable: %%s' %% e)
+finally:
+    shutil.rmtree(tmp, ignore_errors=True)
+for b in bad: print('VIOLATED:', b)
+sys.exit(1 if bad else 0)
+'''
+
+
+def make_replay(chk, t, size, sg, checked, cdef):
+    def replay(case):
+        raw = case.get('compiler_value', 0)
+        c = {'ctype': t, 'checked': checked, 'cdef': cdef, 'compiler': llsym.signed(raw, 8 * size) if sg else raw}
+        path = chk.write_replay('const', REPLAY % json.dumps(c))
+        rc, out = common.run_replay(path, timeout=300)
+        return common.replay_verdict(rc, out), path
+    return replay
+
+
 _gen = None
 
 
@@ -73,6 +121,7 @@ def const_worker(args):
     checked = j is not None
     cname = ('K%d_%d' % (i, j)) if checked else ('U%d' % i)
     label = 'constant:%s:%s' % (t, ('cdef=%d' % CDEF_VALUES[j]) if checked else 'unchecked')
+    replay = make_replay(chk, t, size, sg, checked, CDEF_VALUES[j] if checked else None)
 
     def ext(ex, name, g, m):
         if name.startswith('sym_'):
@@ -109,18 +158,18 @@ def const_worker(args):
             differs = cv != V_const(CDEF_VALUES[j])
             if is_c(r) and r == 0:
                 hutil.witness(chk, ex, label + ':error')
-                hutil.discharge(chk, ex, label + ':error=>values-differ', differs, inputs)
-                hutil.discharge(chk, ex, label + ':error-is-FFIError', py.exc == 'FFIError', inputs)
+                hutil.discharge(chk, ex, label + ':error=>values-differ', differs, inputs, replay=replay)
+                hutil.discharge(chk, ex, label + ':error-is-FFIError', py.exc == 'FFIError', inputs, replay=replay)
             else:
                 hutil.witness(chk, ex, label + ':value')
-                hutil.discharge(chk, ex, label + ':no-error=>values-agree', z3.Not(differs), inputs)
-                hutil.discharge(chk, ex, label + ':value==compiler-value', py.info(r)['V'] == cv, inputs)
+                hutil.discharge(chk, ex, label + ':no-error=>values-agree', z3.Not(differs), inputs, replay=replay)
+                hutil.discharge(chk, ex, label + ':value==compiler-value', py.info(r)['V'] == cv, inputs, replay=replay)
         else:
             hutil.witness(chk, ex, label)
             okk = is_c(r) and r != 0 and py.exc is None
-            hutil.discharge(chk, ex, label + ':never-an-error', okk, inputs)
+            hutil.discharge(chk, ex, label + ':never-an-error', okk, inputs, replay=replay)
             if okk:
-                hutil.discharge(chk, ex, label + ':value==compiler-value', py.info(r)['V'] == cv, inputs)
+                hutil.discharge(chk, ex, label + ':value==compiler-value', py.info(r)['V'] == cv, inputs, replay=replay)
 
     res = ex.explore(h, max_paths=500)
     hutil.finish_explore(chk, ex, res, label)
@@ -280,6 +329,7 @@ def arraylen_worker(args):
     checked = j is not None
     cname = ('K%d_%d' % (i, j)) if checked else ('U%d' % i)
     label = 'array-length:%s:%s' % (t, ('cdef=%d' % CDEF_VALUES[j]) if checked else 'unchecked')
+    replay = make_replay(chk, t, size, sg, checked, CDEF_VALUES[j] if checked else None)
     sys.path.insert(0, os.path.join(common.REPO, 'src'))
     from cffi import cffi_opcode
 
@@ -331,13 +381,13 @@ def arraylen_worker(args):
         usable = z3.And(agrees, cv >= 0)
         if rs >= 0:
             hutil.witness(chk, ex, label + ':accepted')
-            hutil.discharge(chk, ex, label + ':accepted=>cdef-agrees-and-nonnegative', usable, inputs)
+            hutil.discharge(chk, ex, label + ':accepted=>cdef-agrees-and-nonnegative', usable, inputs, replay=replay)
             op = simp(mem.load(outp.base + 8 * rs, 8))
             okop = is_c(op) and (op & 255) == cffi_opcode.OP_ARRAY
-            hutil.discharge(chk, ex, label + ':accepted=>array-opcode', okop, inputs)
+            hutil.discharge(chk, ex, label + ':accepted=>array-opcode', okop, inputs, replay=replay)
             if okop:
                 ln = bv(mem.load(outp.base + 8 * (rs + 1), 8), 64)
-                hutil.discharge(chk, ex, label + ':length==compiler-value', z3.SignExt(W - 64, ln) == cv, inputs)
+                hutil.discharge(chk, ex, label + ':length==compiler-value', z3.SignExt(W - 64, ln) == cv, inputs, replay=replay)
         else:
             hutil.witness(chk, ex, label + ':rejected')
             hutil.discharge(chk, ex, label + ':rejected=>disagreement-or-negative-or-too-large',
